@@ -250,7 +250,7 @@ def _explore_shards(st, split, root, node, rows, path, depth, offsets_all):
 
 def _shard_unit(args):
   from ml_metrics._src.chainables import io
-  splits, depth, offsets_all = args
+  splits, depth, offsets_all, want_sample = args
   st = Stats()
   with _Deadline(900):
     for split in splits:
@@ -265,10 +265,22 @@ def _shard_unit(args):
       st.case(case, nontrivial=n > 0)
       _check_node(st, 'SequenceDataSource', case, root, root, rows)
       _explore_shards(st, split, root, root, rows, (), depth, offsets_all)
-  if splits:
-    st.sample({'driver': 'SequenceDataSource.shard', 'sub_sequence_sizes':
-               splits[0], 'nesting_depth': depth,
-               'k': '1..n+2', 'offsets': 'all' if offsets_all else '{0,1,len}'})
+  if want_sample and splits:
+    split = max(splits, key=sum)
+    rows = [val(i) for i in range(sum(split))]
+    pieces = enums.cut(rows, split)
+    root = (io.SequenceDataSource(pieces[0]) if len(split) == 1 else
+            io.SequenceDataSource.from_sequences(pieces))
+    st.sample({
+        'driver': 'SequenceDataSource.shard', 'sub_sequences': pieces,
+        'k': 3, 'shards': _try(lambda: [list(root.shard(i, 3))
+                                        for i in range(3)]),
+        'shard(1,3,offset=1).shard(0,2)': _try(
+            lambda: list(root.shard(1, 3, offset=1).shard(0, 2))),
+        'its_state': _try(
+            lambda: repr(root.shard(1, 3, offset=1).shard(0, 2).state)),
+        'explored_below_this_source': f'every k in 1..len+2, shard index, '
+                                      f'offset, to nesting depth {depth}'})
   return st
 
 
@@ -278,7 +290,7 @@ def _shard_unit(args):
 
 def _iterable_unit(args):
   from ml_metrics._src.chainables import io
-  ns, kinds = args
+  ns, kinds, want_sample = args
   st = Stats()
   with _Deadline(300):
     for n, kind in itt.product(ns, kinds):
@@ -337,8 +349,13 @@ def _iterable_unit(args):
                   f'C09:ShardedIterable.{name}:recovered-shard-differs',
                   {'case': case + (i,), 'state': repr(state), 'got': rec,
                    'expected': part}, replay={'case': case})
-  st.sample({'driver': 'ShardedIterable.shard', 'n': list(ns),
-             'containers': list(kinds), 'k': '1..n+2'})
+  if want_sample:
+    rows = [val(i) for i in range(5)]
+    root = io.ShardedIterable(rows)
+    st.sample({'driver': 'ShardedIterable.shard', 'rows': rows, 'k': 3,
+               'shards': _try(lambda: [list(root.shard(i, 3))
+                                       for i in range(3)]),
+               'state_of_shard_1': _try(lambda: repr(root.shard(1, 3).state))})
   return st
 
 
@@ -435,17 +452,25 @@ def check_merged(st, split, kind, mbs, only=None):
 
 
 def _merged_unit(args):
-  splits, kinds, mbss = args
+  splits, kinds, mbss, want_sample = args
   st = Stats()
   with _Deadline(300):
     for split in splits:
       for kind in kinds:
         for mbs in mbss:
           check_merged(st, tuple(split), kind, mbs)
-  if splits:
-    st.sample({'driver': 'MergedSequences', 'sub_sequence_sizes': splits[0],
-               'containers': list(kinds), 'max_batch_size': list(mbss),
-               'indices': '[-n-1, n]', 'slice_bounds': '[-n-1, n+1] + None'})
+  if want_sample and splits:
+    from ml_metrics._src.utils import iter_utils
+    split = tuple(max(splits, key=sum))
+    rows = [val(i) for i in range(sum(split))]
+    pieces = enums.cut(rows, split)
+    m = iter_utils.MergedSequences(pieces, max_batch_size=2)
+    st.sample({'driver': 'MergedSequences', 'sub_sequences': pieces,
+               'max_batch_size': 2, 'm[-2]': _try(lambda: m[-2]),
+               'm[1:-1]': _try(lambda: list(m[1:-1])),
+               'list(m)': _try(lambda: list(m)),
+               'explored_for_this_split': 'every index in [-n-1, n], every '
+               'slice bound pair in ([-n-1, n+1] + None)^2'})
   return st
 
 
@@ -546,7 +571,7 @@ def check_merged_failing(st, split, which, bad, sliceable, a, b, mbs):
 
 
 def _range_unit(args):
-  cases, mbss, msplits = args
+  cases, mbss, msplits, want_sample = args
   st = Stats()
   with _Deadline(120):
     for n, bad in cases:
@@ -565,10 +590,14 @@ def _range_unit(args):
                 for mbs in mmbs:
                   check_merged_failing(st, tuple(split), which, bad, sliceable,
                                        a, b, mbs)
-  if cases:
-    st.sample({'driver': '_RangeIterator', 'n': cases[0][0],
-               'unreadable_index': cases[0][1], 'ranges': 'all 0<=start<=stop<=n',
-               'max_batch_size': list(mbss)})
+  if want_sample and cases:
+    from ml_metrics._src.utils import iter_utils
+    n, bad = cases[0]
+    rows = [val(i) for i in range(n)]
+    it = iter_utils._RangeIterator(FailingSeq(rows, bad, True), 0, n, 4)  # pylint: disable=protected-access
+    st.sample({'driver': '_RangeIterator', 'rows': rows,
+               'unreadable_index': bad, 'start': 0, 'stop': n,
+               'max_batch_size': 4, 'events': _events(it, 2 * n + 6)})
   return st
 
 
@@ -586,12 +615,12 @@ def run(ctx):
   quick = ctx.quick
   only = getattr(ctx, 'only', None) or HARNESSES
   # -- bounds --------------------------------------------------------------
-  n_single = 8 if quick else 14      # one sub-sequence, nesting depth 2
-  n_deep = 5 if quick else 7         # nesting depth 3
-  n_multi, p_multi = (5, 3) if quick else (6, 4)   # from_sequences splits
-  n_merged, p_merged = (5, 4) if quick else (6, 5)
+  n_single = 8 if quick else 16      # one sub-sequence, nesting depth 2
+  n_deep = 5 if quick else 8         # nesting depth 3
+  n_multi, p_multi = (5, 3) if quick else (7, 4)   # from_sequences splits
+  n_merged, p_merged = (5, 4) if quick else (7, 5)
   mbss = (1, 2, 3, 64)
-  n_range = 6 if quick else 9
+  n_range = 6 if quick else 10
   range_mbss = (1, 2, 3, 4, 5, 8, 16, 64)
   ctx.rule = (
       f'SequenceDataSource: every n<={n_single} (single sequence, nesting depth '
@@ -627,17 +656,20 @@ def run(ctx):
     multi = [s for s in _splits(n_multi, p_multi) if len(s) > 1]
     for u in enums.chunks(ctx.shuffled(multi), 48):
       units.append((u, 2, True))
-    ctx.pmap(_shard_unit, ctx.shuffled(units))
+    units = sorted(units, key=lambda u: -sum(map(sum, u[0])))   # big first
+    ctx.pmap(_shard_unit, [u + (i == 0 or u == ([(n_deep,)], 3, True),)
+                           for i, u in enumerate(units)])
     ctx.notes['shard_source_splits'] = len(singles) + len(multi)
   if 'iterable' in only:
     kinds = ('list', 'tuple', 're-iterable')
     ns = list(range(n_single + 1))
-    ctx.pmap(_iterable_unit, [(u, kinds) for u in enums.chunks(ns, 8)])
+    ctx.pmap(_iterable_unit, [(u, kinds, i == 0) for i, u in
+                              enumerate(enums.chunks(ns, 8))])
   if 'merged' in only:
     splits = [()] + _splits(n_merged, p_merged)
     kinds = ('list', 'tuple', 'index-only')
-    ctx.pmap(_merged_unit, [(u, kinds, mbss) for u in
-                            enums.chunks(ctx.shuffled(splits), 64)])
+    ctx.pmap(_merged_unit, [(u, kinds, mbss, i == 0) for i, u in enumerate(
+        enums.chunks(ctx.shuffled(splits), 64))])
     ctx.notes['merged_splits'] = len(splits)
   if 'range' in only:
     cases = [(n, bad) for n in range(1, n_range + 1) for bad in range(n)]
@@ -646,6 +678,7 @@ def run(ctx):
     units = [([c], range_mbss, []) for c in cases]
     units += [([], range_mbss, u) for u in
               enums.chunks(ctx.shuffled(msplits), 32)]
+    units = [u + (i == len(cases) - 1,) for i, u in enumerate(units)]
     ctx.pmap(_range_unit, ctx.shuffled(units))
 
 
@@ -656,9 +689,9 @@ def replay(ctx, data):
   if kind in ('source', 'shard'):
     split = tup(case[1])
     depth = max(2, len(case[2]) + 1) if kind == 'shard' else 2
-    ctx.merge(_shard_unit(([split], depth, True)))
+    ctx.merge(_shard_unit(([split], depth, True, False)))
   elif kind == 'iterable':
-    ctx.merge(_iterable_unit(([case[1]], (case[2],))))
+    ctx.merge(_iterable_unit(([case[1]], (case[2],), False)))
   elif kind == 'merged':
     check_merged(ctx, tup(case[1]), case[2], case[3],
                  only=data['replay'].get('only'))
